@@ -51,8 +51,14 @@ func fragmentingFileNamer() fileNamer {
 // a prefix of another one).
 const dirMarker = "="
 
+// emptyKeyName is the file name of the empty key.
+const emptyKeyName = "=="
+
 func fragmentFileName(key string) string {
 	encoded := base64.RawURLEncoding.EncodeToString([]byte(key))
+	if encoded == "" {
+		return emptyKeyName // a file needs a name
+	}
 	if len(encoded) <= 255 { // Common filesystem filename limit
 		return encoded
 	}
@@ -90,6 +96,9 @@ func fragmentedFileNameToKey(name string) (string, error) {
 		return string(decoded), nil
 	}
 
+	if name == emptyKeyName {
+		return "", nil
+	}
 	// Handle plain base64
 	decoded, err := base64.RawURLEncoding.DecodeString(name)
 	if err != nil {
